@@ -468,7 +468,8 @@ def gwIter (maxField : Nat) (st : GwSt) (m : Bytes) : GwIter :=
       match splitLf st.h [] with
       | some (line, rest) =>
         -- the buffer already holds a complete (last-chunk) line: trailer accumulation continues
-        gwLine maxField st st.h (st.h.getD (st.h.length - 2) 0 = cr) st.h m line.length 0 rest true
+        -- `memchr(s,'\n',…)[-1] != '\r'`: the byte in front of the size line's LF (c5fe038)
+        gwLine maxField st st.h (st.h.getD (line.length - 2) 0 = cr) st.h m line.length 0 rest true
       | none =>
         -- an unterminated chunk-size line is buffered: the bound is on buffered + new bytes,
         -- `(off_t)(1024 - hlen) < hsz` with the difference computed in uint32_t
